@@ -716,9 +716,14 @@ def fam_trig(tier):
              't7 = !{ it* }', 't8 = @{ "x" ~ t7 ~ bang? }',
              't9 = { !(it* ~ "!") ~ ANY* }',
              't10 = { PUSH("a") ~ ("b" ~ tl | DROP ~ "b" ~ PUSH("ab") ~ tl) }', 'tl = { PEEK ~ bang }',
-             't11 = { it{2} ~ it+ ~ bang? }']
+             't11 = { it{2} ~ it+ ~ bang? }',
+             # slices whose normalised bounds come out reversed for some stack depths: an empty match, not an error and not a panic
+             't12 = { PUSH(it)+ ~ "-" ~ PEEK[1..-1] ~ ANY* }', 't13 = ${ PUSH(it) ~ PUSH(it)? ~ PUSH(it)? ~ "-" ~ PEEK[-1..1] ~ "!"? }', 't14 = { PUSH(it){,2} ~ PEEK[2..1] ~ bang }',
+             # a silent entry rule that fails before any named rule is tried
+             't15 = _{ "a" ~ "b" ~ it }']
     ins = ["ab!a", "aba", "aa", "ab", "abx", "ax", "abba", "aba ", "b", "", "aab", "a b", "x\r\ny", "x\r\n", "x\ny", "x\r", "x a é", "xaé!", "x  a", " a!", " aé !", "aé😀!", "a a a",
-           "a a a a!", "aa a", "abab!", "ab a!", "abb!", "é" * 34 + "?", "a" + "😀" * 33 + "?", "é" * 20 + "\n" + "😀" * 34 + " ?"]
+           "a a a a!", "aa a", "abab!", "ab a!", "abb!", "é" * 34 + "?", "a" + "😀" * 33 + "?", "é" * 20 + "\n" + "😀" * 34 + " ?",
+           "a-.", "a-a", "aa-a", "aaa-a!", "aé-é", "a a-", "a-", "aa-", "aaa-!", "aa!", "a!", "!", "x", "ax", "abé", "ab"]
     g = dict(id="tg0", text="\n".join(lines), alphabet=cps("ab! x"), maxlen=2 if tier == "quick" else 3, inputs=[cps(x) for x in ins],
-             entries=["t1", "t2", "t3", "t4", "t5", "t6", "t8", "t9", "t10", "t11"])
+             entries=["t1", "t2", "t3", "t4", "t5", "t6", "t8", "t9", "t10", "t11", "t12", "t13", "t14", "t15"])
     return [g]
